@@ -46,6 +46,9 @@ func init() {
 				seqSpec{Cfg: "rot/bytewise", Alpha: c11Alpha, Depth: d2, Checks: "db,views"},
 				seqSpec{Cfg: "default/bytewise", Alpha: c11Alpha, Depth: d2, Checks: "db,views"},
 			)
+			for _, cfg := range []string{"nocache/bytewise", "evict/bytewise"} {
+				specs = append(specs, seqSpec{Cfg: cfg, Alpha: c07AlphaTr, Depth: d2, Checks: "db,views", Mode: "from-held-transaction-iterator", Prefixes: c07TrPrefixes})
+			}
 			runSpecs(c, "C11", specs,
 				"breadth-first search over sequences including OpenTransaction / Transaction.Put/Delete/Write / Commit / Discard / Close-with-open-transaction / large-batch Write; after every transition the transaction view, the DB view, live snapshots and a fresh snapshot are compared with their models; after Discard, Close, Commit, Reopen and CompactRange the storage listing must equal live tables + live journal(s) + live manifest once background work is quiescent (x_residue_checks)",
 				[]string{"crash around Commit is covered by C04 (trx histories), commit failures by C08/C09, concurrent readers by C05 (transaction-vs-reader)", "transaction bodies of up to depth-1 operations; the 40-byte write buffer of bigbatch makes bodies flush internally"})
